@@ -28,7 +28,7 @@
   * no negative balance: `balances_never_negative` (invariant `LedgerNonNeg.Inv` kept by admitted txs, whole candidate
     lists and Finalize); outside that domain the total `setBal` goes negative exactly where Go panics
     (`drained_pool_refund_is_a_go_panic`).
-  * EVM value flows / reverts / self-destruct: NOT modelled — judged by the contract-block oracle of `hx c05` only.
+  * EVM value flows / reverts / self-destruct: not in THIS model — see `LemoModel.EvmValue` / `LemoProofs.C05Evm` (frame trees; `evmv` lines of `hx c05`).
   * REFUTED on the code as it stands (kernel-checked witnesses, known findings):
     `box_mints` (a non-empty box pays its sub-txs' gas to the miner twice and reports gasUsed > gasLimit),
     `fee_vanishes_without_income` (chargeForGas silently drops the fee).
